@@ -1005,6 +1005,10 @@ pub fn run_bin(prop: &str) {
             if is64 { match db64.get(&sid) { Some(s) => (w64::ledger(&s.m), pid.and_then(|k| s.ps.get(&k)).map(|p| (p.is_long, p.is_collateral_token_long, BigInt::from(p.size_in_usd)))), None => (Default::default(), None) } }
             else { match db128.get(&sid) { Some(s) => (w128::ledger(&s.m), pid.and_then(|k| s.ps.get(&k)).map(|p| (p.is_long, p.is_collateral_token_long, BigInt::from(p.size_in_usd)))), None => (Default::default(), None) } }
         };
+        // C03 on positions: merged open interest (USD) of both sides before the operation
+        let oi_before: Option<(BigInt, BigInt)> = if prop == "C03" {
+            macro_rules! oi { ($db:expr) => { $db.get(&sid).map(|s| { let o = &s.m.open_interest; (BigInt::from(o.0.long_amount) + BigInt::from(o.0.short_amount), BigInt::from(o.1.long_amount) + BigInt::from(o.1.short_amount)) }) } }
+            if is64 { oi!(db64) } else { oi!(db128) } } else { None };
         // C09: health of the position before a liquidation order, by the independent computation
         let pre_liq: Option<&'static str> = if prop == "C09" && op == "dec" && t.len() == 15 && t[7] == "1" {
             health_any(&db64, &db128, &track, is64, &sid, t[3], &t[9..], true, true) } else { None };
@@ -1146,6 +1150,25 @@ pub fn run_bin(prop: &str) {
                         if rt[8] != "1" { out.oracle_fail("the whole size was closed but the position was not removed", &req); }
                     } else { out.stat("c11.partial_close"); if closed != requested { out.stat("c11.partial_close_adjusted"); } }
                     if total != uncapped { out.stat("c11.trader_cap_binds"); }
+                }
+            }
+            // ---------------- C03 on positions: an increase that does not improve the open-interest balance never receives a
+            //                  positive price impact; one that improves it without crossing the balance point never a negative one
+            if prop == "C03" && op == "inc" && ok && t.len() > 5 && rt.len() > 1 {
+                if let (Some((ol, os)), Some((is_long, _, _))) = (&oi_before, &pos_before) {
+                    let d = bi(t[5]); let x = bi(rt[1]);
+                    let (nl, ns) = if *is_long { (ol + &d, os.clone()) } else { (ol.clone(), os + &d) };
+                    let (i0, i1) = ((ol - os).magnitude().clone(), (&nl - &ns).magnitude().clone());
+                    let crossed = (ol <= os) != (nl <= ns);
+                    let zero = BigInt::from(0);
+                    if d != zero {
+                        out.stat(if i1 < i0 { "c03.pos.improved" } else { "c03.pos.not_improved" });
+                        if i1 >= i0 && x > zero { out.oracle_fail(&format!("an increase that does not improve the open-interest balance ({ol}/{os} -> {nl}/{ns}) received a positive price impact {x}"), &req); }
+                        // (the converse clause — improving ⇒ non-negative — is NOT asserted on the action's report: the reported value is
+                        //  taken after the virtual-inventory rule and the caps of `get_execution_params`; it is covered on
+                        //  `PoolDelta::price_impact` / `swap_impact_value` by bin c03 and by theorem priceImpact_improved_nonneg_partial)
+                        if i1 < i0 && !crossed && x < zero { out.stat("c03.pos.improved_but_negative_report"); }
+                    }
                 }
             }
             // ---------------- C02 on position fees: exact split of order + borrowing + liquidation fees in every report
